@@ -817,7 +817,14 @@ pub async fn check_answers(
                     .actors
                     .get(a)
                     .and_then(|am| am.versions.get(&v))
-                    .map(|vm| vm.state.clone())
+                    .map(|vm| {
+                        if vm.state == VState::Partial && vm.reverted {
+                            // its changes are applied; only the bookkeeping regressed
+                            VState::Applied
+                        } else {
+                            vm.state.clone()
+                        }
+                    })
             };
             let chunks = full.get(&(*a, v)).cloned().unwrap_or_default();
             let declared_empty = empties.get(a).is_some_and(|e| e.contains(&v));
@@ -916,7 +923,7 @@ pub async fn check_answers(
                                 .actors
                                 .get(a)
                                 .and_then(|am| am.versions.get(&v))
-                                .filter(|vm| vm.stale_rows)
+                                .filter(|vm| vm.stale_rows || vm.reverted)
                         };
                         let stale_served = !chunks.is_empty()
                             && stale.is_some_and(|vm| {
